@@ -220,7 +220,11 @@ func (r *txRunner) Close() {}
 func (r *txRunner) wrap(d *txDef) *txcache.WrappedTransaction {
 	tx := &transaction.Transaction{SndAddr: d.sender, Nonce: d.nonce, GasPrice: d.price, GasLimit: d.gasLimit, RelayerAddr: d.relayer, Value: big.NewInt(0)}
 	r.host.byPtr[tx] = d
-	return &txcache.WrappedTransaction{Tx: tx, TxHash: d.hash, Size: d.size}
+	// the fields the pool derives at insertion (fee, transferred value, fee payer) arrive filled with garbage: whatever a
+	// caller left in them must not be taken for the host's answer (PricePerUnit is left zero: for a zero gas limit the pool
+	// does not assign it)
+	return &txcache.WrappedTransaction{Tx: tx, TxHash: d.hash, Size: d.size,
+		Fee: big.NewInt(987654321), TransferredValue: big.NewInt(-5), FeePayer: []byte{0xde, 0xad}}
 }
 
 // observed state through the public API
